@@ -73,3 +73,22 @@ Print Assumptions C07_curl_cylindrical.
 Print Assumptions C07_grady_dual_nonorth.
 Print Assumptions C07_gradx.
 Print Assumptions C07_grady_orthogonal.
+
+(* ---------------------------------------------------------------------------------------------------------------
+   The circular equilibrium (finding F31): theories/Model_Circular.v with the exponent ranges REGENERATED from circular.py
+   (gen/Gen_Circular.v) -- dq/dr as the code computes it is the derivative of q for any number of coefficients, and d2psi/dr2 as
+   written in the source is the derivative of dpsi/dr for any q. *)
+From Coq Require Import List.
+From HT Require Import Model_Circular Proof_Circular.
+From HG Require Import Gen_Circular.
+
+Theorem C07_circular_dqdr_is_the_derivative_of_q : forall (cs : list R) r, cs <> nil ->
+  is_derive (circ_q CIRC_q_start CIRC_q_step cs) r (circ_dqdr CIRC_dq_start CIRC_dq_step CIRC_dq_skip cs r).
+Proof. exact circ_dqdr_is_derivative. Qed.
+
+Theorem C07_circular_d2psidr2_is_the_derivative_of_dpsidr : forall (B0 R0 : R) (q dq : R -> R) r, (0 < R0 -> r ^ 2 < R0 ^ 2 -> q r <> 0 ->
+  is_derive q r (dq r) -> CIRC_forms_checked = true ->
+  is_derive (circ_dpsidr B0 R0 q) r (circ_d2psidr2 B0 R0 q dq r))%R.
+Proof. intros B0 R0 q dq r H1 H2 H3 H4 _. exact (circ_d2psidr2_is_derivative B0 R0 q dq r H1 H2 H3 H4). Qed.
+
+Print Assumptions C07_circular_dqdr_is_the_derivative_of_q.
